@@ -36,7 +36,7 @@ def run(tier: str) -> int:
         out = wd / "tables.json"
         cfg = cfg_text("Spec", constants={"Groups": {1, 2}, "Names": {1, 2}, "Vers": {0, 1, 2}},
                        invariants=["RegistryOK", "Reflexive", "Antisymmetric", "Total", "Trichotomy", "SupportsLaws"],
-                       postcondition="ExportTables").replace("CONSTANTS\n", "CONSTANTS\n  RegVersions <- RegVersionsDef\n")
+                       postcondition="ExportTables").replace("CONSTANTS\n", "CONSTANTS\n  RegVersions <- " + ("RegVersionsDef" if quick else "RegVersionsBig") + "\n")
         r = run_tlc("MC_PluginOrder", cfg, wd, workers=4, env={"OUT_FILE": str(out)}, timeout=1800)
         rep.add_tlc("order_laws_and_registry_model", r, refs=108, triples=108 ** 3, registry_versions=5, exhaustive=True)
         if r.violated:
